@@ -1,10 +1,18 @@
-from props.common import ASSUME_BOUNDED
+from props.common import ASSUME_BOUNDED, verify_keys
 from pv import bounded as B
 
 NAMES = ['bnd:C16.parse_equals_fresh', 'bnd:C16.parse.total']
 
 
 def run(report):
+    verify_keys(report, ['parso.cache._set_cache_item', 'parso.cache.load_module'])
+    report.assume("ghost environment of the cache VCs: cur_mtime(path) (the file's mtime now, only grows) and "
+                  "ver_at(path, mtime) (content version; a function of mtime by the property's proviso); get_last_modified "
+                  "returns cur_mtime; representation invariant of parser_cache is a precondition of load_module; that "
+                  "try_to_save_module establishes it is NOT proved (it does not hold: known finding, read-then-stat race)",
+                  "_load_from_file_system is used through an assumed contract in load_module (disk branch bounded only)",
+                  "A-DICTITER: iteration over a dict terminates; the filter of the GC dict comprehension is abstracted "
+                  "(any subset of the entries may survive)")
     tier = report.tier
     res = B.run_script('harness.c16_run', ['--length', '3' if tier == 'quick' else '5',
                                           '--sample', '6000' if tier == 'quick' else '60000', '--seed', str(report.seed)])
